@@ -69,6 +69,19 @@ def check(case, rec):
                     i, field, _short(want[field]), _short(o[field])))
 
 
+    # the caller's STREAM is the caller's: after a read it can be rewound and read again (reading must not close or consume it for good)
+    if case["route"] == "stream":
+        import io as _io
+
+        st_ = _io.StringIO(text)
+        try:
+            a = sut.Bf3File.read_file(st_, check_cmac=case["check_cmac"], **kw)
+            st_.seek(0)
+            b = sut.Bf3File.read_file(st_, check_cmac=not case["check_cmac"], **kw)
+        except Exception as e:
+            raise Violation("reading the same stream object twice (rewound in between) raised %s: %s" % (type(e).__name__, e))
+        if [sut.obs_component(c) for c in a.components] != [sut.obs_component(c) for c in b.components] or a.comments != b.comments:
+            raise Violation("two reads of the same rewound stream object return different files")
     # object re-use: the object that was read is "the same file" - written again (same key, same route) it must give the same text, and the
     # ORIGINAL object written a second time must still give the text of its first write (nothing consumed or cached by writing/reading)
     for what, obj in (("the object read back", g), ("the original object, second write", f)):
